@@ -52,7 +52,10 @@ func (a *TypeRef) Equals(b *TypeRef) bool {
 		}
 		//return true
 	}
-	if a.ElementRelationship != b.ElementRelationship {
+	if (a.ElementRelationship == nil) != (b.ElementRelationship == nil) {
+		return false
+	}
+	if a.ElementRelationship != nil && *a.ElementRelationship != *b.ElementRelationship {
 		return false
 	}
 	return a.Inlined.Equals(&b.Inlined)
